@@ -34,6 +34,8 @@ inductive Ev where
   | origin (c : ConnId) | resp (c : ConnId) (cl : Bool) | closed (c : ConnId)
   | lclose | shutCall | shutRet (isNil : Bool) | closeCall | closeRet | deadline | cancel | runRet
   | known      -- harness marker "closing is certainly set" (not an action; ignored by the acceptor)
+  | nolimit    -- configuration marker: the context handed to Shutdown has no deadline (shutdown timeout 0);
+               -- not an action: the execution starts from `initNoLimit`
   deriving DecidableEq, Repr, Inhabited
 
 def Ev.action : Ev → Option Action
@@ -45,6 +47,15 @@ def Ev.action : Ev → Option Action
   | .shutRet n => some (.shutdownRet n) | .closeCall => some .closeCall | .closeRet => some .closeRet
   | .deadline => some .ctxExpire | .cancel => some .cancel | .runRet => some .runRet
   | .known => none
+  | .nolimit => none
+
+/-- markers are not actions -/
+def Ev.isMarker : Ev → Bool
+  | .known | .nolimit => true
+  | _ => false
+
+/-- the initial state a history is run from -/
+def startOf (h : List Ev) : State := if h.contains .nolimit then initNoLimit else init
 
 /-- the visible part of an action -/
 def visible : Action → Option Ev
@@ -245,7 +256,7 @@ def flushAll (m : Merge) (conns : List ConnId) (sols : Std.HashMap ConnId (Array
 def assemble (h : Array Ev) (conns : List ConnId) (pl : Plan)
     (sols : Std.HashMap ConnId (Array (List Mv))) : Option (Array Action) := do
   let rigA := h.any (· == .cancel)
-  let mut m : Merge := { s := init, rig := rigA }
+  let mut m : Merge := { s := startOf h.toList, rig := rigA }
   let mut cur : Std.HashMap ConnId Nat := {}
   for g in [0:h.size + 1] do
     if pl.p = some g then
@@ -377,15 +388,16 @@ def search (h : Array Ev) : Verdict := Id.run do
 /-- the check that makes acceptance trustworthy: the action list runs in the model and its visible
     part is the history -/
 def checkRun (h : List Ev) (as : List Action) : Bool :=
-  (run init as).isSome && (as.filterMap visible == h.filter (· ≠ .known))
+  (run (startOf h) as).isSome && (as.filterMap visible == h.filter (!·.isMarker))
 
 def accept (h : List Ev) : Bool :=
   let v := search h.toArray
   v.ok && checkRun h v.actions.toList
 
-/-- an accepted history is a behaviour of the model -/
+/-- an accepted history is a behaviour of the model (started with the kind of context the history
+    names) -/
 theorem accept_sound {h : List Ev} (ha : accept h = true) :
-    ∃ as, (run init as).isSome = true ∧ as.filterMap visible = h.filter (· ≠ .known) := by
+    ∃ as, (run (startOf h) as).isSome = true ∧ as.filterMap visible = h.filter (!·.isMarker) := by
   unfold accept at ha
   simp only [Bool.and_eq_true] at ha
   refine ⟨(search h.toArray).actions.toList, ?_⟩
@@ -418,6 +430,7 @@ def isResp (k : ConnId) : Ev → Bool | .resp c _ => c == k | _ => false
 def isAnswer (k : ConnId) : Ev → Bool | .answer c => c == k | _ => false
 def isClosed (k : ConnId) : Ev → Bool | .closed c => c == k | _ => false
 def isGone (k : ConnId) : Ev → Bool | .gone c => c == k | _ => false
+def isOend (k : ConnId) : Ev → Bool | .oend c => c == k | _ => false
 def isDial (k : ConnId) : Ev → Bool | .connect c _ => c == k | .refused c => c == k | _ => false
 
 def countEv (h : Array Ev) (p : Ev → Bool) : Nat := h.foldl (fun n e => if p e then n + 1 else n) 0
@@ -442,6 +455,10 @@ def clauses (h : Array Ev) : List Fail := Id.run do
     | some a, some b => some (min a b)
     | some a, none => some a
     | none, b => b
+  -- Run's return when no deadline precedes it
+  let runRetFree : Option Nat := match posOf h (· == Ev.runRet) with
+    | some rr => if before (posOf h (· == Ev.deadline)) (some rr) then none else some rr
+    | none => none
   let mut out : List Fail := []
   for k in conns do
     let nOrigin := countEv h (isOrigin k)
@@ -490,6 +507,27 @@ def clauses (h : Array Ev) : List Fail := Id.run do
           out := out ++ [{ clause := if isConnect then "connect-response-while-closing-without-connection-close"
                                      else "response-while-closing-without-connection-close", conn := k }]
         | _ => pure ()
+    -- (7) rig a: Run returned although the shutdown deadline had not passed (there is none with shutdown
+    --     timeout 0) while a request of this connection was still at its origin (answer released later)
+    match runRetFree with
+    | some rn =>
+      if (posOf h (isGone k)).isNone then
+        for j in [0:nOrigin] do
+          if before (nth h (isOrigin k) j) (some rn) ∧ before (some rn) (nth h (isAnswer k) j) then
+            out := out ++ [{ clause := "run-returned-before-the-deadline-with-exchange-pending-at-origin", conn := k }]
+    | none => pure ()
+    -- (8) a tunnel that was established before shutdown was requested stays up until its client or its
+    --     origin ends it, unless the shutdown was forced (deadline / Close) first
+    for j in [0:nResp] do
+      let isConnect : Bool := match (nth h (isSend k) j).bind (fun i => h[i]?) with
+        | some (.send _ r) => r.connect
+        | _ => false
+      let r := nth h (isResp k) j
+      if isConnect && before r begun then
+        let x := posOf h (isClosed k)
+        let caused : Bool := before (posOf h (isGone k)) x || before (posOf h (isOend k)) x || before forced x
+        if x.isSome && !caused then
+          out := out ++ [{ clause := "tunnel-established-before-shutdown-was-cut-before-the-deadline", conn := k }]
   -- (6) Shutdown returns the context's error only after the deadline
   match posOf h (· == .shutRet false) with
   | some e =>
@@ -525,6 +563,7 @@ def parseEv (s : String) : Option Ev :=
   | ["X"] => some .cancel
   | ["XR"] => some .runRet
   | ["K"] => some .known
+  | ["NL"] => some .nolimit
   | _ => none
 
 def parseHistory (s : String) : Option (List Ev) := (Wire.splitList s).mapM parseEv
